@@ -904,7 +904,10 @@ def skeleton_program(host, forest):
         entries.append(("S", tail[0].split(" ", 1)[1]))
     entries.append(("S", "END"))
     entries += g.subs
-    entries.append(("S", "DATA " + DATA_ITEMS))
+    # the data in three DATA statements: one behind another statement of its line, two on one line
+    items = [x.strip() for x in DATA_ITEMS.split(",")]
+    entries.append(("S", "vz = 0 : DATA " + ", ".join(items[:4])))
+    entries.append(("S", "DATA " + ", ".join(items[4:6]) + " : DATA " + ", ".join(items[6:])))
     # number the lines, resolve labels
     n = 10
     labels, numbered = {}, []
